@@ -59,3 +59,16 @@ Definition error_discipline_ok (ew bs es : list (string * bool)) (entries : list
   && forallb (fun f => if String.prefix "Parser.Parse" f then smem f (map fst es) else true) entries.
 Lemma error_discipline_checked : error_discipline_ok errors_writes bad_sites entry_shapes entry_points = true.
 Proof. vm_compute. reflexivity. Qed.
+
+(* ---------- C07: exprPrec (regenerated from ast/sql.go) agrees with the reference operator table ---------- *)
+From Verif Require Import Parse.ExprModel Parse.Spell.
+Definition prec_agrees (ptab : list (string * prec_rule)) : bool :=
+  forallb (fun '(op, n) => match prec_of ptab "BinaryExpr" [("Op"%string, PvStr (bs op))] with Some m => Nat.eqb m n | None => false end) bin_table
+  && forallb (fun '(op, n) => match prec_of ptab "UnaryExpr" [("Op"%string, PvStr (bs op))] with Some m => Nat.eqb m n | None => false end)
+             [("+", 2); ("-", 2); ("~", 2); ("NOT", 10)]%string%nat
+  && forallb (fun '(ty, n) => match prec_of ptab ty [] with Some m => Nat.eqb m n | None => false end)
+             [("InExpr", 9); ("IsNullExpr", 9); ("IsBoolExpr", 9); ("BetweenExpr", 9); ("SelectorExpr", 1); ("IndexExpr", 1);
+              ("ParenExpr", 0); ("Ident", 0); ("Path", 0); ("IntLiteral", 0); ("FloatLiteral", 0); ("StringLiteral", 0); ("BytesLiteral", 0);
+              ("NullLiteral", 0); ("BoolLiteral", 0); ("Param", 0); ("TupleStructLiteral", 0); ("CallExpr", 0); ("CaseExpr", 0)]%string%nat.
+Lemma prec_agrees_checked : prec_agrees prec_table = true.
+Proof. vm_compute. reflexivity. Qed.
